@@ -28,8 +28,8 @@ ORDER_PROBES = [
 def gen_items(vseed, tier, n):
     rng = core.rng_for(vseed, PROP, "items")
     items = []
-    fams = ["expr", "expr", "amb", "amb", "random", "random", "random", "lexamb", "stmt",
-            "nullable", "dyn", "rec", "rrprio", "rrprio"]
+    fams = ["expr", "expr", "amb", "amb", "random", "random", "random", "lexamb", "lexamb", "stmt",
+            "stmt", "nullable", "dyn", "rec", "rrprio", "rrprio"]
     while len(items) < n:
         sc = pool.make_scenario(rng, fams)
         v = rng.randrange(len(sc["texts"]))
@@ -42,6 +42,11 @@ def gen_items(vseed, tier, n):
             tables[1] = dict(tables[0], ld=rng.choice(
                 [x for x in (None, True, False) if x != tables[0]["ld"]]))
         inputs = [pool.gen_input(rng, sc, version=v, p_damage=0.25)[0] for _ in range(3)]
+        if sc["family"] in ("lexamb", "stmt", "expr", "rec"):
+            # recovery at lexically ambiguous resume points: junk in front of tokens
+            inputs += [pool.gen_input(rng, sc, version=v, p_damage=1.0, max_faults=2,
+                                      kinds=["junk", "junk", "subst", "dup"])[0]
+                       for _ in range(4)]
         items.append({"family": sc["family"], "text": sc["texts"][v], "recs": sc["recognizers"][v],
                       "tables": tables, "inputs": inputs})
         if len(items) % 5 == 0:
